@@ -87,7 +87,7 @@ theorem proto_stream_core (s : Bytes) :
     | some (n, i) => ∃ st, protoTbl.searchNext baseState s = .ok (i, st, n)
     | none => ∃ row', protoTbl.searchNext baseState s = .ok (noMatch, row', s.length) ∧
         row' < protoTbl.matchLimit ∧ protoAR row' = s.foldl rstep sigsK2 := by
-  have h := sim_searchNext proto_closed s baseState (by rw [proto_matchLimit]; decide)
+  have h := sim_searchNext proto_closed s baseState proto_base_lt
   rw [protoAR_base] at h
   exact h
 
